@@ -1110,7 +1110,9 @@ def _run_worker_files(specs, timeout):
     import subprocess
     import sys
     import tempfile
-    d = tempfile.mkdtemp(prefix='c13w_')
+    base = os.path.join(os.path.dirname(os.path.dirname(os.path.dirname(os.path.abspath(__file__)))), '.cache', 'tmp')
+    os.makedirs(base, exist_ok=True)
+    d = tempfile.mkdtemp(prefix='c13w_', dir=base)   # removed by the caller after it has read the log
     pin, pout = os.path.join(d, 'in.jsonl'), os.path.join(d, 'out.jsonl')
     with open(pin, 'w') as f:
         for sp in specs:
@@ -2295,6 +2297,7 @@ def valgrind_run(ctx, specs):
                 sample = sample or blk[-900:]
     except OSError:
         log = ''
+    shutil.rmtree(extra.get('dir', ''), ignore_errors=True)
     ctx.note('valgrind', {'cases': len(specs), 'completed': sum(1 for r in results if r is not None),
                           'libdist_errors': n_err, 'wall_s': round(time.time() - t0, 1),
                           'crash': crash and crash['returncode']})
